@@ -224,6 +224,9 @@ fn group_patterns() -> Vec<&'static str> {
         r"(?<a>a)(?<b>b)?\k<a>", r"(a)(b)(c)", r"(?:(?>(a)|b))+", r"(?:(?:(a)|b)(?!c))+", r"(?<!x)", r"(a)(?=b)", r"(é)(?=a)",
         // references spelled with numbers through the NAMED syntax name nothing: the group stays unnamed
         r"(a)(b)\k<-1>", r"(a)(b)\k<2>", r"(a)(b)\k'-1'", r"(a)(?P=1)", r"(?<x>a)(b)\k<-1>\k<x>", r"(a)(b)?(?(<-1>)y|z)", r"(a)\k<1>(b)\k<-1>",
+        // a NAMED group with capturing groups inside it, in both spellings and for both engines: the name belongs to the group's own
+        // index, not to the index the counter has reached when the group closes (added after seeded/C16-17)
+        r"(?P<o>a(b)(c))(d)", r"(?P<o>a(b)(?P<i>c))(?=d)", r"(?<o>a(b)(?<i>c))(?=d)", r"(?P<o>(a)|(b))+(?!x)", r"((?P<o>(a)(?P<i>b))c)",
         // free-spacing mode: a `#` comment runs to the end of the line, whatever characters and parentheses it contains
         "(?x)(a) # naïve → same as f()\n(?<v>b)", "(?x)(a) # €€€ (x) (y)\n(b)(?=c)", "(?x) (a) # ()\n (?<n>b) # 😀 (\n (c)",
     ]
